@@ -699,6 +699,13 @@ def recursion_rule(R, rid, root_name):
         key = named[0]
         ent = [e for e in tab if e["contains"] in names]
         loc = P.fns[comp[0]].loc()
+        if not ent and all(P.fns[k].derived for k in comp):
+            # #[derive(Clone / PartialEq / Hash / Debug ..)] on a tree type recurses over a value of that type; values of the tree
+            # types are only built by the parser / converter, i.e. under the depth guard
+            gf = P.fn("sqlgrep::parsing::parser::Parser::enter_nesting")
+            if gf is not None and gf.key in guard_callers:
+                R.ok(rid, key, "derived impl over a tree value of guarded depth", loc, nontrivial=False)
+                continue
         if not ent:
             R.violation(rid, "unbounded|" + key,
                         "recursive functions %s are reachable from the entry points without a depth bound: input that nests deeply enough overflows "
